@@ -3,6 +3,7 @@ package main
 import (
 	"context"
 	"fmt"
+	"path"
 	"strings"
 
 	"github.com/pentops/j5/gen/j5/list/v1/list_j5pb"
@@ -108,6 +109,14 @@ func coqMeth(m MethDesc) string {
 		coqStr(m.Name), vh.BoolTerm(m.InSamePkg), coqStr(m.InName), coqStr(m.OutName), coqStr(m.OutFull), http, strings.Join(fs, ";"))
 }
 
+func coqAnns(im *Img) string {
+	q := make([]string, len(im.Anns))
+	for i, a := range im.Anns {
+		q[i] = fmt.Sprintf("(%s, (%s, %d))", coqKey(a.Pkg, a.Name), coqStr(a.Entity), a.Part)
+	}
+	return "[" + strings.Join(q, ";") + "]"
+}
+
 func coqImg(im *Img) string {
 	svcs := make([]string, len(im.Services))
 	for i, s := range im.Services {
@@ -178,4 +187,47 @@ func stageKind(status string) int {
 		return 3
 	}
 	return 9
+}
+
+// ---------------------------------------------------------------- the declaration as a decl_package term
+
+// coqDeclPackage renders what the generator wrote as j5s: services, methods (verb, full path split at '/',
+// request and response property names) and publish topics. Property types are not part of the comparison.
+// extra reports declarations that add services of their own (entities, non-publish topics).
+func coqDeclPackage(p *gPackage) (term string, extra bool) {
+	props := func(ps []gProp) string {
+		q := make([]string, len(ps))
+		for i, pr := range ps {
+			q[i] = fmt.Sprintf("{| p_json := %s; p_ty := TScalar \"any\" |}", coqStr(pr.Name))
+		}
+		return "[" + strings.Join(q, ";") + "]"
+	}
+	svcs := make([]string, len(p.Services))
+	for i, sv := range p.Services {
+		ms := make([]string, len(sv.Methods))
+		for k, m := range sv.Methods {
+			full := path.Join(sv.BasePath, m.Path)
+			resp := "None"
+			if !m.NoResp {
+				resp = "(Some " + props(m.Resp) + ")"
+			}
+			ms[k] = fmt.Sprintf("{| df_name := %s; df_verb := %d; df_parts := %s; df_req := %s; df_resp := %s |}",
+				coqStr(m.Name), verbArm[strings.ToLower(m.Verb)], coqStrs(strings.Split(full, "/")), props(m.Req), resp)
+		}
+		svcs[i] = fmt.Sprintf("(%s, [%s])", coqStr(sv.Name), strings.Join(ms, ";"))
+	}
+	var tops []string
+	for _, tp := range p.Topics {
+		if tp.Kind == "publish" || tp.Kind == "" {
+			tops = append(tops, fmt.Sprintf("{| dt_name := %s; dt_msgs := %s |}", coqStr(tp.Name), coqStrs(tp.Messages)))
+		} else {
+			extra = true
+		}
+	}
+	if p.Entity != nil {
+		extra = true
+	}
+	term = fmt.Sprintf("{| dp_pkg := %s; dp_services := [%s]; dp_topics := [%s]; dp_schemas := [] |}",
+		coqStr(p.Pkg), strings.Join(svcs, ";"), strings.Join(tops, ";"))
+	return term, extra
 }
